@@ -1,4 +1,5 @@
 """C18 — AnyId keys are coherent: equality, ordering and hash agree"""
+import hashlib
 import os
 
 import anyid_domain as ad
@@ -50,6 +51,18 @@ def corpus_cases():
 def prove_and_extract(ctx):
     """tie A + proofs + extraction: the model driver follows the regenerated leaves"""
     proof = vlib.coq_prove(ctx, FILES)
+    # coq/gen is shared: a concurrent check of another property regenerates every leaf from ITS tree.
+    # If GenAnyId.v is no longer the text this run generated, prove again (bounded).
+    for _ in range(2):
+        want = proof.get('leaves', {}).get('GenAnyId.v')
+        try:
+            have = hashlib.sha256(open(os.path.join(vlib.COQ, 'gen', 'GenAnyId.v'), 'rb').read()).hexdigest()[:16]
+        except OSError:
+            have = None
+        if want is None or want == have:
+            break
+        ctx.notes.append('coq/gen/GenAnyId.v was rewritten by a concurrent run during the proof step; proof step repeated')
+        proof = vlib.coq_prove(ctx, FILES)
     # the driver of this domain only (vlib builds all drivers and stops at the first failing one)
     rc, o, e = vlib.sh('make -C %s _build/driver_anyid' % os.path.join(vlib.ROOT, 'ocaml'), timeout=600)
     if rc != 0 or not os.path.exists(os.path.join(vlib.DRIVERS, 'driver_anyid')):
@@ -91,7 +104,7 @@ def run(ctx):
                 'std::map and std::unordered_map dispatchers; the direct oracle re-checks the laws and the dispatch results on the implementation trace alone; '
                 'non-trivial = at least one pair of distinct values with colliding digests and at least one dispatch that reaches a listener; distinct by case text' % (ncorpus, sorted(bins)),
         'traces_validated_against_impl': st['compared'], 'disagreements': st['disagreements'], 'oracle_failures': st['oracle_failures'],
-        'model_error_discarded': st['model_error_discarded'], 'generator_histogram': hist,
+        'model_error_discarded': st['model_error_discarded'], 'skipped_after_repeated_crashes': st.get('skipped_after_repeated_crashes', 0), 'generator_histogram': hist,
         'pairs_compared': st['pairs'], 'triples_checked': st['triples'],
         'pairs_colliding_distinct': st['pairs_colliding_distinct'], 'collision_rate_pct': round(100.0 * st['pairs_colliding_distinct'] / pairs, 1),
         'pairs_equal_across_types': st['pairs_equal_across_types'],
